@@ -389,3 +389,19 @@ def return_alts(cx, body, want):
         lits = fa.bool_lits(e, want)
         out.extend((loc, frozenset(a | set(lits))) for a in alts)
     return out
+
+
+def root_local(b, op):
+    """follow single-definition copy chains from an operand to the local that really holds the value"""
+    if op["k"] not in ("copy", "move") or op["pl"]["p"]:
+        return None
+    l = op["pl"]["l"]
+    hops = 0
+    while b.is_single_def(l) and hops < 8:
+        loc, kind, node = b.defs[l][0]
+        if kind == "assign" and node["rv"]["k"] == "use" and node["rv"]["op"]["k"] in ("copy", "move") and not node["rv"]["op"]["pl"]["p"]:
+            l = node["rv"]["op"]["pl"]["l"]
+            hops += 1
+        else:
+            break
+    return l
